@@ -234,6 +234,10 @@ class AppSocket:
             if line.lower().startswith("sec-websocket-key:"):
                 key = line.split(":", 1)[1].strip()
         self.request = req
+        for line in req.split("\r\n"):
+            if line.lower().startswith("x-conn-seq:"):
+                # (scenarios with a callable `header`) which value THIS connection's request carries
+                self.s.emit("cbtext", f"hs:{self.idx}:{line.split(':', 1)[1].strip()}")
         if self.reject is not None:
             resp = f"HTTP/1.1 {self.reject} Rejected\r\n\r\n".encode()
         else:
